@@ -147,6 +147,12 @@ func genC13(rt *rapid.T) c13Case {
 	if rapid.IntRange(0, 2).Draw(rt, "hostOverride") == 0 {
 		c.Host = "override.example:8443"
 	}
+	if rapid.IntRange(0, 3).Draw(rt, "hostAmongHeaders") == 0 {
+		// a Host entry among the caller's headers (copied from an incoming request by a proxy, say): net/http
+		// takes the request's host from Request.Host, never from the header map, so it decides nothing -
+		// the Host that is sent is still DialOptions.Host, or the URL's
+		c.Header.Set("Host", "header.example")
+	}
 	if rapid.IntRange(0, 3).Draw(rt, "spellings") == 0 {
 		// the caller's map holds one header name under several spellings: every value is sent
 		c.Header["X-Trace"] = []string{"a"}
@@ -395,6 +401,9 @@ func checkC13Request(c c13Case, r *http.Request) string {
 	}
 	if c.Host != "" && r.Host != c.Host {
 		return fmt.Sprintf("Host override %q not applied (Host %q)", c.Host, r.Host)
+	}
+	if c.Host == "" && r.Host != "" && r.Host != "verif.test:1234" {
+		return fmt.Sprintf("no Host override was asked for, but the request goes out with Host %q (URL host verif.test:1234)", r.Host)
 	}
 	if len(c.Protos) > 0 {
 		if got := ref.Tokens(r.Header.Values("Sec-WebSocket-Protocol")); fmt.Sprint(got) != fmt.Sprint(c.Protos) {
